@@ -673,7 +673,6 @@ func checkPipeRelease(c *Ctx, r *Report) {
 	}
 }
 
-
 // ctxBoundToCaller: the context value is the enclosing function's context parameter — followed through the static
 // callers of helper functions — possibly wrapped by cancellation-preserving derivations (WithValue, WithTimeout,
 // WithDeadline, WithCancel and their *Cause forms). context.WithoutCancel, Background and TODO cut the link to the
